@@ -8,12 +8,13 @@ ap.add_argument("-j", type=int, default=3)
 ap.add_argument("-tier", default="quick")
 ap.add_argument("-checks", default="")
 ap.add_argument("-seed", default="1")
+ap.add_argument("-snap", default="", help="suffix of the snapshot directory (to run two matrices at once)")
 ap.add_argument("-first", action="store_true", help="only the first check listed in detected_by (else the property's own check)")
 ap.add_argument("ids", nargs="+")
 a = ap.parse_args()
 os.makedirs("/tmp/matrix", exist_ok=True)
 # the checks run from a snapshot of the committed /verif, so that edits made meanwhile do not disturb them
-V = "/tmp/matrix/verif-snap"
+V = "/tmp/matrix/verif-snap" + a.snap
 subprocess.run(["git", "-C", "/verif", "worktree", "remove", "--force", V], capture_output=True)
 subprocess.run(["git", "-C", "/verif", "worktree", "add", "--detach", V, "HEAD"], check=True, capture_output=True)
 ids = sorted(os.listdir(V + "/seeded")) if a.ids == ["all"] else a.ids
@@ -24,7 +25,7 @@ def run(mid):
     checks = a.checks.split(",") if a.checks else sorted(set([meta["breaks_property"]] + meta.get("detected_by", [])))
     if a.first and not a.checks:
         checks = (meta.get("detected_by") or [meta["breaks_property"]])[:1]
-    wt = "/tmp/matrix/wt-" + mid
+    wt = "/tmp/matrix/wt%s-" % a.snap + mid
     subprocess.run(["git", "-C", "/repo", "worktree", "remove", "--force", wt], capture_output=True)
     p = subprocess.run(["git", "-C", "/repo", "worktree", "add", "--detach", wt, "HEAD"], capture_output=True, text=True)
     if p.returncode != 0:
@@ -35,7 +36,7 @@ def run(mid):
         if p.returncode != 0:
             return mid, {"error": "patch failed: " + p.stderr}
         for c in checks:
-            env = dict(os.environ, VERIF_REPO=wt, VERIF_EVIDENCE_DIR="/tmp/matrix/ev-" + mid, VERIF_REPLAYS_DIR="/tmp/matrix/rp-" + mid,
+            env = dict(os.environ, VERIF_REPO=wt, VERIF_EVIDENCE_DIR="/tmp/matrix/ev%s-" % a.snap + mid, VERIF_REPLAYS_DIR="/tmp/matrix/rp%s-" % a.snap + mid,
                        VERIF_SEED=a.seed)
             t0 = time.time()
             p = subprocess.run([V + "/check", c, "--tier", a.tier], capture_output=True, text=True, env=env, cwd=V)
@@ -46,14 +47,14 @@ def run(mid):
             print("%s %s exit=%d viol=%d %ds %s" % (mid, c, p.returncode, len(viol), time.time() - t0, what[:1]), flush=True)
     finally:
         subprocess.run(["git", "-C", "/repo", "worktree", "remove", "--force", wt], capture_output=True)
-        shutil.rmtree("/tmp/matrix/ev-" + mid, ignore_errors=True)
-        shutil.rmtree("/tmp/matrix/rp-" + mid, ignore_errors=True)
+        shutil.rmtree("/tmp/matrix/ev%s-" % a.snap + mid, ignore_errors=True)
+        shutil.rmtree("/tmp/matrix/rp%s-" % a.snap + mid, ignore_errors=True)
     return mid, out
 
 res = {}
 with concurrent.futures.ThreadPoolExecutor(max_workers=a.j) as ex:
     for mid, out in ex.map(run, ids):
         res[mid] = out
-json.dump(res, open("/tmp/matrix/result-%s.json" % a.tier, "w"), indent=1)
+json.dump(res, open("/tmp/matrix/result-%s%s.json" % (a.tier, a.snap), "w"), indent=1)
 missed = [m for m, o in res.items() if not any(isinstance(v, dict) and v.get("exit") == 1 for v in o.values())]
 print("MISSED:", " ".join(missed))
